@@ -166,7 +166,9 @@ class RDD:
             r = defaultdict(lambda: copy.deepcopy(zeroValue))
             for k, v in i:
                 r[k] = seqFunc(r[k], v)
-            return r
+            # a plain dict: the default factory is a local function, which
+            # a process pool cannot send back as part of the task result
+            return dict(r)
 
         def combFuncByKey(l):
             r = defaultdict(lambda: copy.deepcopy(zeroValue))
